@@ -205,7 +205,12 @@ def temporaries_leg(c, wd):
     mod, path, marks = R.write_host(wd, HOST)
     base = path.rsplit('/', 1)[-1]
     sets = [["['w1', a]", "['w2', b]", "['w3', a]"], ["(a, 'x' * 3)", "(b, 'y' * 3)"], ["a + 100000", "b + 200000"],
-            ["shared", "alias", "[shared]"], ["{'k': a}", "{'k': b}", "{'k': a}"], ["str(a) * 2", "str(b) * 2"]]
+            ["shared", "alias", "[shared]"], ["{'k': a}", "{'k': b}", "{'k': a}"], ["str(a) * 2", "str(b) * 2"],
+            # fresh values WITHOUT children (floats, big numbers, text, bytes): the interpreter reuses the address of a
+            # released float / string at once
+            ["a * 1.5", "b * 1.5", "a * 2.5", "b * 2.5", "a / 4", "b / 4"],
+            ["a ** 30", "b ** 30", "a ** 31"], ["'n=%d' % a", "'n=%d' % b", "'m=%d' % a"],
+            ["bytes([a, a])", "bytes([b, b])"], ["complex(a, 1)", "complex(b, 1)", "complex(a, 2)"]]
     for ws in sets:
         rg = R.Rig()
         try:
